@@ -101,7 +101,8 @@ func (e *Env) callValue(st *State, c *ssa.CallCommon, args []Val, rt types.Type,
 		}
 	}
 	_ = pos
-	return e.havocCall(st, "dynamic call "+name, args, rt)
+	// calls through a function-typed parameter are recorded under the parameter's name
+	return e.havocCall(st, c.Value.Name(), args, rt)
 }
 
 func (e *Env) invoke(st *State, recv Val, m *types.Func, args []Val, rt types.Type, name string, depth int, c *ssa.CallCommon) []Out {
@@ -210,8 +211,12 @@ func (e *Env) dispatch(st *State, fn *ssa.Function, args []Val, binds []Val, rt 
 	if fn.Synthetic != "" && fn.Blocks != nil && (strings.HasPrefix(fn.Synthetic, "bound method") || strings.HasPrefix(fn.Synthetic, "wrapper") || strings.HasPrefix(fn.Synthetic, "thunk")) {
 		return e.inline(st, fn, args, binds, depth)
 	}
-	if ct := e.Cx.forFunc(fn); ct != nil && !(e.noContract[fn]) {
-		return e.applyContract(st, ct, args, rt, c)
+	if ct := e.Cx.forFunc(fn); ct != nil && !(e.noContract[fn]) && !e.applying[ct] && !ct.Inline {
+		// (a contract that mentions its own function is unfolded through the body on re-entry)
+		e.applying[ct] = true
+		outs := e.applyContract(st, ct, args, rt, c)
+		delete(e.applying, ct)
+		return outs
 	}
 	if ct := e.Cx.externFor(name, e.topFn); ct != nil {
 		return e.applyContract(st, ct, args, rt, c)
